@@ -31,8 +31,13 @@ Count(s, x) == Cardinality({k \in DOMAIN s : s[k] = x})
 (* r.types   : Seq([ns : Path (root first), short : Name, maj, min : Nat])   the composite types of the root ns     *)
 (* r.strop   : Seq([n : Name, s : Name])   the language's documented (one-way) stropping of path identifiers      *)
 (* r.ext     : Name                        the definition-file extension in force                                 *)
-(* r.nodes   : Seq([dsdl : Path, parent : Nat, kids : Seq(Nat), types : Seq(Nat), paths : Seq(Path), up : Nat])   *)
-(*             distinct namespace objects reachable from the root (index NN+1 = an object that is not reachable)  *)
+(* r.nodes   : Seq([dsdl : Path, parent : Nat, kids : Seq(Nat), types : Seq(Nat), paths : Seq(Path), up : Nat,    *)
+(*                  rdir, rout, rfind : Path, rpaths : Seq(Path)])                                                 *)
+(*             distinct namespace objects reachable from the root (index NN+1 = an object that is not reachable); *)
+(*             the r* fields are paths exactly AS THE MODEL SPELLS THEM (not resolved against anything):          *)
+(*             output_folder, the namespace's own file, find_output_path_for_type(namespace), nested type paths   *)
+(* r.given   : Path                        the output directory as the caller spelled it (lexical components)     *)
+(* r.denote  : Seq([b : Path, ok : BOOLEAN])  for the spellings met: does b denote the output directory?           *)
 (* r.pobs    : BOOLEAN                     parent links were observable                                            *)
 (* r.root    : Nat                         the node returned to the caller                                          *)
 (* r.walk_types / r.walk_ns / r.walk_any   what get_all_datatypes / get_all_namespaces / get_all_types yield       *)
@@ -154,11 +159,34 @@ RefEqGen(r) ==
         LET x == r.refs[k]
         IN \A d \in Ran(x.deps) : d \in 1..NT(r) /\ \E g \in Obs(r, d) : \E j \in DOMAIN x.incs : RefMatch(r, x.how, g, x.incs[j])
 
+(* tree.as_given: every namespace path and every type path is ONE spelling of the output directory - the one   *)
+(* the caller gave, or at least one that denotes the same directory - followed by the stropped namespace       *)
+(* components and a file name.  (A model that spells namespaces one way and types another way is inconsistent:  *)
+(* a path of one cannot be expressed relative to a folder of the other.)                                        *)
+StripTail(p, k) == SubSeq(p, 1, Len(p) - k)
+TailOf(p, k) == SubSeq(p, Len(p) - k + 1, Len(p))
+BasesOf(r) ==
+    UNION {{StripTail(r.nodes[n].rdir, Len(r.nodes[n].dsdl)), StripTail(r.nodes[n].rout, Len(r.nodes[n].dsdl) + 1),
+            StripTail(r.nodes[n].rfind, Len(r.nodes[n].dsdl) + 1)}
+           \cup {StripTail(r.nodes[n].rpaths[k], Len(r.nodes[n].paths[k])) : k \in DOMAIN r.nodes[n].rpaths} : n \in 1..NN(r)}
+AsGiven(r) ==
+    /\ \A n \in 1..NN(r) :
+          LET x == r.nodes[n]
+          IN /\ x.dsdl \in NSset(r)
+             /\ Len(x.rdir) >= Len(x.dsdl) /\ TailOf(x.rdir, Len(x.dsdl)) = StropPath(r, x.dsdl)
+             /\ Len(x.rout) = Len(x.rdir) + 1 /\ FrontOf(x.rout) = x.rdir
+             /\ x.rfind = x.rout
+             /\ Len(x.rpaths) = Len(x.paths)
+             /\ \A k \in DOMAIN x.rpaths : Len(x.rpaths[k]) >= Len(x.paths[k]) /\ TailOf(x.rpaths[k], Len(x.paths[k])) = x.paths[k]
+    /\ Cardinality(BasesOf(r)) <= 1
+    /\ \A b \in BasesOf(r) : b = r.given \/ \E k \in DOMAIN r.denote : r.denote[k].b = b /\ r.denote[k].ok
+
 (* the clauses in the order that names a rejection (first failed clause) and numbers the bits of the mask *)
 Clauses(r) ==
     << <<"tree.inside_outdir", InsideOutdir(r)>>, <<"tree.type_once", TypeOnce(r)>>, <<"tree.ancestors", Ancestors(r)>>,
        <<"tree.links", Links(r)>>, <<"tree.path_total", PathTotal(r)>>, <<"tree.path_shape", PathShape(r)>>,
-       <<"tree.injective", Injective(r)>>, <<"tree.one_file", OneFile(r)>>, <<"tree.ref_eq_gen", RefEqGen(r)>> >>
+       <<"tree.injective", Injective(r)>>, <<"tree.one_file", OneFile(r)>>, <<"tree.ref_eq_gen", RefEqGen(r)>>,
+       <<"tree.as_given", AsGiven(r)>> >>
 
 RECURSIVE FailMask(_, _)
 FailMask(cs, k) == IF k > Len(cs) THEN 0 ELSE (IF cs[k][2] THEN 0 ELSE 2 ^ (k - 1)) + FailMask(cs, k + 1)
@@ -181,10 +209,13 @@ CONSTANTS Roots,        \* candidate root namespace names
           MaxDepth,     \* nesting below the root: 0..MaxDepth
           MaxTypes,     \* 1..MaxTypes types per input
           StropMode,    \* "prefix" (c, cpp: if -> _if) | "suffix" (py: if -> if_) | "none" (html)
-          GenNsChoices  \* subset of BOOLEAN: generate namespace files too?
+          GenNsChoices, \* subset of BOOLEAN: generate namespace files too?
+          Spellings,    \* how the caller spells the output directory: subset of {"abs", "rel", "slash", "dot", "dotdot", "symlink"}
+          CanonNs       \* FALSE: the code as it is.  TRUE: negative control - a Namespace that canonicalises (resolves) ITS paths only
 
 VARIABLES types,        \* the input list, in the order the caller passes it
           genNs,
+          spell,        \* the spelling of the output directory (constant during a behaviour)
           pc, ti, wi,
           first,        \* _NamespaceFactory._namespaces is an insertion-ordered dict keyed by the unstropped full
           made,         \*   namespace; only `next(iter(values()))` reads the order: first = that entry, made = the key set
@@ -195,7 +226,7 @@ VARIABLES types,        \* the input list, in the order the caller passes it
           kids,         \* {<<namespace, nested>>}: Namespace._nested_namespaces
           out           \* what the caller gets: root and the set of files written
 
-vars == <<types, genNs, pc, ti, wi, first, made, index, linked, held, par, kids, out>>
+vars == <<types, genNs, spell, pc, ti, wi, first, made, index, linked, held, par, kids, out>>
 
 NmA == <<97>>
 NmB == <<98>>
@@ -208,6 +239,26 @@ NmIfU == <<105, 102, 95>>
 ExtM == <<46, 104>>
 NsStemM == <<95, 110, 115, 95>>
 OutM == <<<<111, 117, 116>>>>
+
+(* The output directory in an abstract sandbox /s (the process's working directory): out, or real/out reached     *)
+(* through the symbolic link lnk -> real.  GivenM = the lexical components pathlib keeps of the caller's spelling *)
+(* ("out/" and "./out" lose the slash and the dot, ".." stays); CanonM = the resolved absolute path; TrueRelM =    *)
+(* where the directory really is, relative to the sandbox.                                                          *)
+NmSlash == <<47>>
+NmS == <<115>>
+NmOut == <<111, 117, 116>>
+NmSub == <<115, 117, 98>>
+NmLnk == <<108, 110, 107>>
+NmReal == <<114, 101, 97, 108>>
+TrueRelM(sp) == IF sp = "symlink" THEN <<NmReal, NmOut>> ELSE <<NmOut>>
+CanonM(sp) == <<NmSlash, NmS>> \o TrueRelM(sp)
+GivenM(sp) == CASE sp = "abs" -> <<NmSlash, NmS, NmOut>>
+                [] sp = "dotdot" -> <<NmSub, DotDot, NmOut>>
+                [] sp = "symlink" -> <<NmLnk, NmOut>>
+                [] OTHER -> <<NmOut>>          \* "rel", "slash", "dot"
+(* Namespace.__init__: base_output_path / stropped components;  _add_data_type: base_output_path / make_path *)
+NsBaseM(sp) == IF CanonNs THEN CanonM(sp) ELSE GivenM(sp)
+AllSpellings == {"abs", "rel", "slash", "dot", "dotdot", "symlink"}
 
 (* named constant values for the cfg files *)
 RootsR == {NmR}
@@ -239,6 +290,7 @@ Init ==
     /\ \E root \in Roots :
           types \in {f \in UNION {[1..k -> TypeU(root)] : k \in 1..MaxTypes} : Inj(f) /\ ValidInput(Ran(f))}
     /\ genNs \in GenNsChoices
+    /\ spell \in Spellings
     /\ pc = "visit" /\ ti = 1 /\ wi = 0
     /\ first = <<>> /\ made = {} /\ index = {} /\ linked = {} /\ held = {} /\ par = {} /\ kids = {}
     /\ out = [root |-> <<>>, files |-> {}, nwrites |-> 0]
@@ -252,7 +304,7 @@ VisitType ==
        THEN /\ pc' = "add" /\ UNCHANGED <<first, made, wi>>
        ELSE /\ made' = made \cup {CurNs} /\ first' = (IF made = {} THEN CurNs ELSE first)
             /\ wi' = Len(CurNs) /\ pc' = "walk"
-    /\ UNCHANGED <<types, genNs, ti, index, linked, held, par, kids, out>>
+    /\ UNCHANGED <<types, genNs, spell, ti, index, linked, held, par, kids, out>>
 
 (* one iteration of `for i in range(len(name_components) - 1, 0, -1)`, with its `break` *)
 IndexAncestors ==
@@ -261,7 +313,7 @@ IndexAncestors ==
        ELSE LET anc == SubSeq(CurNs, 1, wi)
             IN IF anc \in index THEN pc' = "add" /\ UNCHANGED <<index, wi>>
                ELSE index' = index \cup {anc} /\ wi' = wi - 1 /\ pc' = "walk"
-    /\ UNCHANGED <<types, genNs, ti, first, made, linked, held, par, kids, out>>
+    /\ UNCHANGED <<types, genNs, spell, ti, first, made, linked, held, par, kids, out>>
 
 (* `namespace._add_data_type(dsdl_type, extension)` *)
 AddType ==
@@ -269,7 +321,7 @@ AddType ==
     /\ held' = held \cup {<<CurNs, ti>>}
     /\ ti' = ti + 1
     /\ pc' = IF ti = Len(types) THEN "link" ELSE "visit"
-    /\ UNCHANGED <<types, genNs, wi, first, made, index, linked, par, kids, out>>
+    /\ UNCHANGED <<types, genNs, spell, wi, first, made, index, linked, par, kids, out>>
 
 KidsOf(n) == {q[2] : q \in {q \in kids : q[1] = n}}
 ParentsOf(n) == {q[2] : q \in {q \in par : q[1] = n}}
@@ -287,7 +339,7 @@ LinkNamespace ==
                 THEN /\ kids' = IF \E e \in KidsOf(p) : SS(e) = SS(ns) THEN kids ELSE kids \cup {<<p, ns>>}
                      /\ par' = par \cup {<<ns, p>>}
                 ELSE UNCHANGED <<kids, par>>
-    /\ UNCHANGED <<types, genNs, pc, ti, wi, first, index, held, out>>
+    /\ UNCHANGED <<types, genNs, spell, pc, ti, wi, first, index, held, out>>
 
 RECURSIVE UpFrom(_)
 UpFrom(n) == IF ParentsOf(n) = {} THEN n ELSE UpFrom(CHOOSE p \in ParentsOf(n) : TRUE)
@@ -311,7 +363,7 @@ ReturnRoot ==
     /\ pc = "link" /\ index = linked
     /\ out' = [out EXCEPT !.root = UpFrom(first)]
     /\ pc' = "gen"
-    /\ UNCHANGED <<types, genNs, ti, wi, first, made, index, linked, held, par, kids>>
+    /\ UNCHANGED <<types, genNs, spell, ti, wi, first, made, index, linked, held, par, kids>>
 
 (* DSDLCodeGenerator.generate_all: one file per (type, path) the tree walk from the root yields *)
 Generate ==
@@ -322,7 +374,7 @@ Generate ==
            nf == IF genNs THEN {NsPath(nseq[k]) : k \in DOMAIN nseq} ELSE {}
        IN out' = [out EXCEPT !.files = tf \cup nf, !.nwrites = Len(tseq) + (IF genNs THEN Len(nseq) ELSE 0)]
     /\ pc' = "done"
-    /\ UNCHANGED <<types, genNs, ti, wi, first, made, index, linked, held, par, kids>>
+    /\ UNCHANGED <<types, genNs, spell, ti, wi, first, made, index, linked, held, par, kids>>
 
 Next == VisitType \/ IndexAncestors \/ AddType \/ LinkNamespace \/ ReturnRoot \/ Generate
 
@@ -346,8 +398,12 @@ Proj ==
                        kids |-> [k \in DOMAIN ks |-> Idx(ks[k])],
                        types |-> ts,
                        paths |-> [k \in DOMAIN ts |-> TypePath(ts[k])],
-                       up |-> Idx(UpFrom(n))]
-        files == {OutM \o f : f \in out.files}
+                       up |-> Idx(UpFrom(n)),
+                       rdir |-> NsBaseM(spell) \o SS(n),
+                       rout |-> NsBaseM(spell) \o NsPath(n),
+                       rfind |-> NsBaseM(spell) \o NsPath(n),
+                       rpaths |-> [k \in DOMAIN ts |-> GivenM(spell) \o TypePath(ts[k])]]
+        files == {TrueRelM(spell) \o f : f \in out.files}
         dirs == UNION {DirsOf(f) : f \in files}
         names == SetToSeq(AllNames)
     IN [types |-> types,
@@ -361,7 +417,9 @@ Proj ==
         walk_any |-> [k \in DOMAIN nseq |-> [k |-> "ns", i |-> Idx(nseq[k])]] \o [k \in DOMAIN tseq |-> [k |-> "ty", i |-> tseq[k]]],
         find |-> [n \in DOMAIN nl |-> [i \in 1..Len(types) |-> IF i \in reach \/ i \in TypesOf(nl[n]) THEN TypePath(i) ELSE <<>>]],
         generated |-> TRUE,
-        outdir |-> OutM,
+        outdir |-> TrueRelM(spell),
+        given |-> GivenM(spell),
+        denote |-> <<[b |-> GivenM(spell), ok |-> TRUE], [b |-> CanonM(spell), ok |-> TRUE]>>,
         created |-> SetToSeq({[p |-> f, d |-> FALSE] : f \in files} \cup {[p |-> d, d |-> TRUE] : d \in dirs}),
         other |-> IF genNs THEN SetToSeq({NsPath(nl[k]) : k \in DOMAIN nl}) ELSE <<>>,
         refs |-> <<>>]
@@ -385,7 +443,7 @@ FoldedOnlyWithKeyword == pc = "done" /\ Folded(Proj) => StropMode # "none"
 EmitRec ==
     LET nseq == WalkNs(out.root)
         reach == UNION {TypesOf(nseq[k]) : k \in DOMAIN nseq}
-    IN [mode |-> StropMode, types |-> types, gen_ns |-> genNs, root |-> out.root, folded |-> Folded(Proj),
+    IN [mode |-> StropMode, types |-> types, gen_ns |-> genNs, spell |-> spell, as_given |-> (NsBaseM(spell) = GivenM(spell)), root |-> out.root, folded |-> Folded(Proj),
         nodes |-> [k \in DOMAIN nseq |-> [dsdl |-> nseq[k],
                                            parent |-> IF ParentsOf(nseq[k]) = {} THEN <<>> ELSE CHOOSE p \in ParentsOf(nseq[k]) : TRUE,
                                            kids |-> SetToSeq(KidsOf(nseq[k])),
